@@ -476,6 +476,156 @@ class ValidateMetadata(_Dir):
 # ----------------------------------------------------------------------------
 # Native side: operation histories on a real index directory against a dictionary model
 # ----------------------------------------------------------------------------
+# metadata.json round trip: what save_metadata writes is what load_metadata reads back
+# ----------------------------------------------------------------------------
+PAR = 'moPepGen/params.py'
+
+
+@register
+class CleavageParamsInit(Contract):
+    """the six cleavage fields are stored as given; exception 'auto' is resolved and never stored"""
+    path, qualname, props = PAR, 'CleavageParams.__init__', ('C12', 'C10')
+
+    def setup(self, I):
+        cp, terms = mk_params(I, 'arg')
+        st = types.SimpleNamespace(terms=terms, obj=SymObj('CleavageParams'))
+        st.args = [st.obj]
+        st.kwargs = {k: cp.fields[k] for k in KEYS}
+        return st
+
+    def post_return(self, I, st, ret):
+        e = I.e
+        o, t = st.obj, st.terms
+        for k in KEYS:
+            if k == 'exception':
+                continue
+            e.prove(f'C12/params-init/{k}-stored-as-given', as_bool(I.eq(o.fields[k], wrapv(k, t[k]))))
+        auto, tryp = e.strlit('auto'), e.strlit('trypsin')
+        exc = unwrapv(I, 'exception', o.fields['exception'])
+        e.prove('C12/params-init/exception-resolved',
+                exc == z3.If(t['exception'] == auto, z3.If(t['enzyme'] == tryp, e.strlit('trypsin_exception'), e.strlit('<None>')),
+                             t['exception']))
+        e.prove('C12/params-init/auto-is-never-stored', exc != auto)
+
+
+class GhostPools:
+    def __init__(self, owner):
+        self.owner = owner
+
+    def sym_method(self, I, name, args, kwargs):
+        if name != 'append':
+            raise Unsupported(f'canonical_pools.{name}')
+        self.owner.on_append(I, args[0])
+
+
+@register
+class JsonfyMetadata(_Meta):
+    """IndexMetadata.jsonfy lists, per registered pool and in order, its file name, index and the six parameters"""
+    path, qualname = IDX, 'IndexMetadata.jsonfy'
+
+    @property
+    def models(self):
+        return (lambda reg: reg.method_('MetaVersion', 'jsonfy', lambda I, o, a, k: {'python': 'p', 'biopython': 'b', 'mopepgen': 'm'}),)
+
+    def setup(self, I):
+        meta, pl = self.mk_meta(I)
+        meta.fields['source'] = 'GENCODE'
+        self._cur = types.SimpleNamespace(args=[meta], pl=pl)
+        return self._cur
+
+    def post_return(self, I, st, ret):
+        e = I.e
+        pl = st.pl
+        pools = ret['canonical_pools'] if isinstance(ret, dict) else None
+        ok = isinstance(ret, dict) and set(ret) == {'version', 'canonical_pools', 'source'} and isinstance(pools, View)
+        e.prove('C12/jsonfy/top-level-keys', ok)
+        if not ok:
+            return
+        e.prove('C12/jsonfy/one-entry-per-pool', pools.length() == pl.m)
+        j = z3.Int('j_json')
+        item = pools.get(j)
+        shape = isinstance(item, dict) and set(item) == {'filename', 'index', 'cleavage_params'} and \
+            isinstance(item['cleavage_params'], dict) and set(item['cleavage_params']) == set(KEYS) and isinstance(item['filename'], FileName)
+        e.prove('C12/jsonfy/entry-keys', shape)
+        if shape:
+            cp = item['cleavage_params']
+            e.prove('C12/jsonfy/entry-j=pool-j',
+                    z3.Implies(z3.And(0 <= j, j < pl.m),
+                               z3.And(item['filename'].index == pl.fnidx[j], item['index'] == pl.idx[j],
+                                      *[unwrapv(I, k, cp[k]) == pl.key[k][j] for k in KEYS])))
+
+
+@register
+class LoadMetadata(_Meta):
+    """load_metadata on the data written by save_metadata (= jsonfy of the metadata, proved above; json.dump/json.load
+    assumed to round-trip dicts, lists, strings, numbers and None) rebuilds every pool with the same file name, index and
+    six parameters, in order."""
+    path, qualname = IDX, 'IndexDir.load_metadata'
+    assumptions = ('assumed: json.load(json.dump(x)) = x for dicts/lists of str, int, float, None',
+                   'assumed (proved by CleavageParams.__init__): a stored exception is never "auto"')
+
+    def setup(self, I):
+        e = I.e
+        pl = PoolList(I, 'stored')
+        for a in wf(pl):
+            e.assume(a)
+        j = z3.Int('j_st')
+        e.assume(z3.ForAll([j], z3.Implies(z3.And(0 <= j, j < pl.m), pl.key['exception'][j] != e.strlit('auto'))))
+
+        def entry(k):
+            kz = k if is_z3(k) else z3.IntVal(k)
+            return {'filename': FileName(pl.fnidx[kz]), 'index': pl.idx[kz],
+                    'cleavage_params': {q: wrapv(q, pl.key[q][kz]) for q in KEYS}}
+        data = {'version': {'python': 'p', 'biopython': 'b', 'mopepgen': 'm'},
+                'canonical_pools': FnView(pl.m, entry, tag='stored pools'), 'source': 'GENCODE'}
+        st = types.SimpleNamespace(pl=pl, data=data, appended=[], k=None)
+        d = SymObj('IndexDir', path=SymObj('PathStub'), metadata_file=SymObj('OtherFile', name='metadata.json'))
+        st.args = [d]
+        self._cur = st
+        return st
+
+    @property
+    def models(self):
+        c = self
+
+        def inst(reg):
+            reg.ext_('open', lambda I, a, k: SymObj('File', path=a[0]))
+            reg.ext_('json.load', lambda I, a, k: c._cur.data)
+        return (inst,)
+
+    def on_append(self, I, pool):
+        st = self._cur
+        e = I.e
+        k, pl = st.k, st.pl
+        st.appended.append(pool)
+        cp = pool.fields['cleavage_params']
+        fn = pool.fields['filename']
+        e.prove('C12/load_metadata/pool-k-has-the-stored-file-name-and-index',
+                z3.And(fn.index == pl.fnidx[k], pool.fields['index'] == pl.idx[k]) if isinstance(fn, FileName) else False)
+        for q in KEYS:
+            e.prove(f'C12/load_metadata/pool-k-has-the-stored-{q}', unwrapv(I, q, cp.fields[q]) == pl.key[q][k])
+
+    def havoc(self, I, env, k):
+        env['canonical_pools'] = GhostPools(self)
+
+    def on_head(self, I, env, k):
+        self._cur.k = k
+        self._cur.n0 = len(self._cur.appended)
+
+    def step(self, I, env, k):
+        return [('one-pool-per-stored-entry', len(self._cur.appended) == self._cur.n0 + 1)]
+
+    @property
+    def loops(self):
+        return {0: LoopSpec(inv=lambda I, env, k: [], havoc=self.havoc, on_head=self.on_head, step=self.step)}
+
+    def post_return(self, I, st, ret):
+        pools = ret.fields['canonical_pools']
+        I.e.prove('C12/load_metadata/returns-the-rebuilt-pool-list', isinstance(pools, (GhostPools, list)))
+        I.e.prove('C12/load_metadata/source-restored', ret.fields['source'] == 'GENCODE')
+
+
+# ----------------------------------------------------------------------------
 from pyvc.native import NativeCheck
 import itertools
 
@@ -623,4 +773,60 @@ class NativeIndexHistories(NativeCheck):
             shutil.rmtree(tmp, ignore_errors=True)
 
 
-NATIVE = [NativeIndexHistories()]
+class NativeMetadataRoundTrip(NativeCheck):
+    name = 'metadata_roundtrip'
+    props = ('C12',)
+    functions = (f'{IDX}:IndexDir.load_metadata', f'{IDX}:IndexMetadata.jsonfy', f'{PAR}:CleavageParams.__init__')
+    bounded_for = ''
+    bound = ('CPython cross-check of the proved metadata round trip: 1-4 pools with random (non-default) parameter sets registered, '
+             'saved with save_metadata and read back by a fresh IndexDir; includes json itself, which the proof assumes')
+    quick_budget_s = 5
+    thorough_budget_s = 30
+
+    def cases(self, rng, tier):
+        for _ in range(40 if tier != 'thorough' else 600):
+            n = rng.randint(1, 4)
+            ps = []
+            while len(ps) < n:
+                p_ = dict(enzyme=rng.choice(['trypsin', 'lysc', 'lysn']), exception=rng.choice(['auto', None, 'trypsin_exception']),
+                          miscleavage=rng.choice([0, 1, 2, 3]), min_mw=rng.choice([0., 500., 750.5, 1200.]),
+                          min_length=rng.choice([5, 7, 9]), max_length=rng.choice([20, 25, 40]))
+                if p_ not in ps:
+                    ps.append(p_)
+            yield dict(params=ps)
+
+    def from_model(self, model):
+        return dict(params=[dict(enzyme='trypsin', exception=None, miscleavage=3, min_mw=1200., min_length=9, max_length=40)])
+
+    def check(self, inp):
+        import tempfile, shutil
+        from pathlib import Path
+        from moPepGen.index import IndexDir
+        from moPepGen.params import CleavageParams
+        d = tempfile.mkdtemp(prefix='verif_c12_')
+        try:
+            idx = IndexDir(Path(d))
+            seen = []
+            for p_ in inp['params']:
+                cp = CleavageParams(**p_)
+                if cp.jsonfy() in seen:
+                    continue
+                seen.append(cp.jsonfy())
+                idx.metadata.register_canonical_pool(cp)
+            idx.save_metadata()
+            before = idx.metadata.jsonfy()
+            again = IndexDir(Path(d))
+            after = again.metadata.jsonfy()
+            if before != after:
+                return dict(call='IndexDir(path) after save_metadata()', observed=str(after['canonical_pools'])[:400],
+                            expected=str(before['canonical_pools'])[:400], signature='metadata-not-restored')
+            for p_ in inp['params']:
+                if again.metadata.get_canonical_pool(CleavageParams(**p_)) is None:
+                    return dict(call=f'get_canonical_pool({p_}) after reopening', observed='None', expected='the registered pool',
+                                signature='registered-pool-not-found-after-reopen')
+        finally:
+            shutil.rmtree(d, ignore_errors=True)
+        return None
+
+
+NATIVE = [NativeIndexHistories(), NativeMetadataRoundTrip()]
